@@ -138,13 +138,22 @@ class Plane(GeoBody):
         )
 
     def __hash__(self):
-        """return the hash of a Plane"""
+        """return the hash of a Plane
+
+        Equal planes must hash equally: Plane(p, n) == Plane(p, -n), so the
+        unit normal and the offset are hashed together with their negatives.
+        """
+        offset = self.n * self.p.pv()
+        forward = hash(("Plane", self.n, round(offset, get_sig_figures())))
+        backward = hash(("Plane", -self.n, round(-offset, get_sig_figures())))
+        return hash(("Plane", forward + backward, forward * backward))
+
+    def oriented_hash(self):
+        """return a hash value that also distinguishes the two orientations of the normal"""
         return hash(
             (
                 "Plane",
-                round(self.n[0], get_sig_figures()),
-                round(self.n[1], get_sig_figures()),
-                round(self.n[2], get_sig_figures()),
+                self.n,
                 round(self.n * self.p.pv(), get_sig_figures()),
             )
         )
